@@ -31,6 +31,7 @@ func runC02(r *Run) {
 		Spec{Name: "map-small-T1024-K4", Kind: "map-small", T: 1024, Keys: 4, Classes: []string{"t", "limM", "limM+", "M:t"}, Oracles: or},
 		Spec{Name: "map-small-T32768-K3", Kind: "map-small", T: 32768, Keys: 3, Classes: []string{"t", "limM", "limM+"}, Oracles: or},
 		Spec{Name: "map-realcoll-T256", Kind: "map-small", T: 256, Keys: 1, Extra: map[string]int{"realcoll": 3}, Classes: []string{"t", "s60"}, Oracles: append([]string{"struct"}, or...)},
+		Spec{Name: "map-giant-T256", Kind: "map-small", T: 256, Keys: 1, Extra: map[string]int{"kLim": 1}, Classes: []string{"t", "giant"}, Oracles: or},
 		Spec{Name: "map-nodedup-T256", Kind: "map-small", T: 256, Keys: 3, Classes: []string{"limM", "A:t"}, Oracles: or, Depth: nd, Extra: map[string]int{"nodedup": 1}},
 	)
 	// histories with commit / reopen events inside (the map is operated on after being decoded from its
